@@ -175,8 +175,9 @@ class SPARQLFunction(SHACLFunction):
             raise SPARQLError("Too many parameters passed to SPARQLFunction.")
         elif len(e.expr) < num_params:
             raise SPARQLError("Too few parameters passed to SPARQLFunction.")
-        new_binds = ctx.ctx.initBindings.copy()
-        new_binds.update(ctx.ctx.bindings)
+        # only the parameters are pre-bound in the function's query: the variables of the calling
+        # query are not in scope there (a variable of the same name is a different variable)
+        new_binds = {}
         g = ctx.ctx.graph
         # e.expr yields the argument values, already evaluated in ctx (a blank node is a value here, not a label)
         for i, var_val in enumerate(e.expr):
